@@ -76,6 +76,12 @@ def r11_1(ctx, prog, crate):
         ctx.check(st in ("u64", "u32", "u16", "u8"), "R11.1", ["duration_since", "difference-at-most-64-bits"],
                   "the tick difference has type %s: the no-overflow argument needs diff < 2^64" % st, b.where(mbi), detail={"type": st})
     k = const_int(m["rv"]["b"])
+    if k is None:
+        # the constant may reach the multiplication through a local (a helper's parameter, a `let`)
+        og = origins(b, m["rv"]["b"])
+        ks = {const_int(o[1]) for o in og if o[0] == "const"}
+        if len(og) == 1 and len(ks) == 1:
+            k = ks.pop()
     ctx.check(k == 10 ** 12, "R11.1", ["duration_since", "picos-per-second"], "the scale constant is %s, expected 10^12" % k, b.where(mbi), detail={"constant": k})
     # division applied to the product
     dd = direct_place(b, d["rv"]["a"])
